@@ -108,7 +108,7 @@ def _bulk_worker(args):
     os.makedirs(sc, exist_ok=True)
     names = T.bulk_names(usize)
     be = T.new_backend(kind, objs, names, sc)
-    be.probe = sorted(set(names[:12] + names[::max(1, usize // 12)] + names[-4:]))
+    be.probe, be.bases = sorted(set(names[:12] + names[::max(1, usize // 12)] + names[-4:])), []
     rec = T.Recorder(be, objs, None, 1)
     T.gen_bulk(random.Random(seed + size), rec, size)
     be.close()
@@ -361,7 +361,7 @@ def report_findings(ctx):
         gv = GitView(objs, ctx.scratch) if (with_git and _G["git"] and obj["backend"] == "disk") else None
         rec = T.Recorder(be, objs, gv, 1)
         if uni.startswith("bulk"):
-            be.probe = sorted(set(names[:12] + names[::max(1, len(names) // 12)] + names[-4:]))
+            be.probe, be.bases = sorted(set(names[:12] + names[::max(1, len(names) // 12)] + names[-4:])), []
         _reexecute(rec, obj["calls"])
         be.close()
         groups.setdefault(uni, []).append((T.to_json(tid, rec, names, values, objs, uni), rec))
@@ -456,7 +456,7 @@ def replay(ctx, path):
     from ..c16_backends import GitView
     be = T.new_backend(obj["backend"], objs, names, ctx.scratch)
     if uni.startswith("bulk"):
-        be.probe = sorted(set(names[:12] + names[::max(1, len(names) // 12)] + names[-4:]))
+        be.probe, be.bases = sorted(set(names[:12] + names[::max(1, len(names) // 12)] + names[-4:])), []
     gv = GitView(objs, ctx.scratch) if (with_git and _G["git"] and obj["backend"] == "disk") else None
     rec = T.Recorder(be, objs, gv, 1)
     for c, e in zip(obj["calls"], _reexecute(rec, obj["calls"])):
